@@ -333,7 +333,7 @@ class EffectiveLindbladian(Gate):
         k_mat = self.calc_k_mat()
 
         # project k_mat
-        eigenvals, eigenvecs = np.linalg.eig(k_mat)
+        eigenvals, eigenvecs = np.linalg.eigh(k_mat)
         for index in range(len(eigenvals)):
             if eigenvals[index] < 0:
                 eigenvals[index] = 0
